@@ -395,3 +395,20 @@ PLAN["C12"] = {
                  {"test": "TestC12_SetupPaths", "rapid": False, "shards": 6, "cli": True, "timeout": 3000},
                  {"test": "TestC12_Guard", "rapid": False, "cli": True, "timeout": 600}],
 }
+
+PLAN["C19"] = {
+    "level": "exploration",
+    "rule": ("the built binary, per (mode, dims) one process (quick: insertion and deletion at depth 3/batch 2; thorough + insertion (5,3) - whose generated post-root has a leading zero byte -, (4,3) both modes): 'setup' is run for the mode under test and "
+             "for the other mode, the files are loaded by the harness, and rapid draws commands over the shared files: the documented pipeline gen-test-params | prove | verify; prove with harness-generated valid documents (four number styles) "
+             "and with invalid/mis-shaped/malformed ones; verify with valid in-process proofs PRE-SELECTED TO HAVE A COORDINATE SHORTER THAN 32 BYTES, written by the harness (unpadded / zero-padded) or by the library encoder, with the hash or hash + r, "
+             "under either valid --mode value; tampered proofs (one digit, swapped G2 pair); wrong hashes; keys of the other mode; --mode absent/garbage/wrong case/empty on prove and verify; missing, empty, truncated and directory keys paths on "
+             "prove/verify/export-vk/convert-to-raw; convert-to-raw then prove with the converted and verify with the original file; malformed proofs on verify's stdin. Oracle: prove's stdout is exactly one JSON proof + newline that the harness reader "
+             "parses and gnark verifies for the request's hash, exit 0 iff the parameters are valid; verify exits 0 exactly when groth16.Verify(vk of the file, hash, proof) holds in the harness; every listed failure cause exits non-zero with no proof on stdout; "
+             "no command exits 0 after logging a fatal error. Every command is non-trivial except a pipeline at (3,2); distinct = SHA-1 of the canonical command."),
+    "assumptions": A_COMMON + ["only prove's stdout is constrained (gnark prints 'ignoring uninitialized slice' on verify's stdout, outside the statement)", "verify --mode insertion on deletion keys with a valid deletion proof may exit 0: validity is a matter of keys, hash and proof"],
+    "technique": "property testing of command sequences over shared files against an in-process oracle (independent proof codec + gnark verifier), with proofs selected for short coordinates",
+    "level_text": "Exploration: dozens of generated CLI invocations per mode per run, with exit status checked against an independent computation of proof validity; short-coordinate proofs are constructed rather than waited for.",
+    "level_note": "each invocation costs about a second (keys are tens of MB), so counts are modest; keys come from the CLI's own setup, independent per run",
+    "quick": [{"test": "TestC19_Commands", "checks": 22, "shards": 2, "cli": True, "timeout": 1800}],
+    "thorough": [{"test": "TestC19_Commands", "checks": 60, "shards": 10, "cli": True, "timeout": 3600}],
+}
